@@ -38,6 +38,9 @@ type Decoded struct {
 	// differently from the files merged in one call; empty if they agree.
 	MergeNest        string
 	MergeNestDecoder string
+	// gohcl in two passes: block structs with a remain body, then the remain bodies
+	TwoVal string
+	TwoErr bool
 }
 
 func diagSummaries(d hcl.Diagnostics) []string {
@@ -104,6 +107,55 @@ func Decode(s *Schema, r *Rendered) (d *Decoded) {
 	d.GoVal = target.Elem().Interface()
 	d.GoErr = gdiags.HasErrors()
 	d.GoDiags = diagSummaries(gdiags)
+
+	// two-pass gohcl: labels first, the rest of every block body afterwards
+	func() {
+		t1 := reflect.New(s.GoTypeRemain)
+		g1 := gohcl.DecodeBody(body, ctx, t1.Interface())
+		d.TwoErr = g1.HasErrors()
+		if d.TwoErr {
+			return
+		}
+		var parts []string
+		root := t1.Elem()
+		for i := 0; i < root.NumField(); i++ {
+			it, ok := s.InnerTypes[i]
+			if !ok {
+				parts = append(parts, goString(root.Field(i).Interface()))
+				continue
+			}
+			var blocks []reflect.Value
+			f := root.Field(i)
+			switch f.Kind() {
+			case reflect.Ptr:
+				if !f.IsNil() {
+					blocks = append(blocks, f.Elem())
+				}
+			case reflect.Struct:
+				blocks = append(blocks, f)
+			case reflect.Slice:
+				for j := 0; j < f.Len(); j++ {
+					blocks = append(blocks, f.Index(j))
+				}
+			}
+			for _, bv := range blocks {
+				var lbl []string
+				for k := 0; k < bv.NumField()-1; k++ {
+					lbl = append(lbl, bv.Field(k).String())
+				}
+				rest, _ := bv.Field(bv.NumField() - 1).Interface().(hcl.Body)
+				t2 := reflect.New(it)
+				if rest != nil {
+					if g2 := gohcl.DecodeBody(rest, ctx, t2.Interface()); g2.HasErrors() {
+						d.TwoErr = true
+						return
+					}
+				}
+				parts = append(parts, fmt.Sprintf("F%d%q%s", i, lbl, goString(t2.Elem().Interface())))
+			}
+		}
+		d.TwoVal = strings.Join(parts, "|")
+	}()
 
 	if len(files) >= 2 {
 		var bodies []hcl.Body
@@ -198,6 +250,12 @@ func Compare(s *Schema, orig, rw *Decoded, skipGohclValue bool) []Mismatch {
 			out = append(out, Mismatch{"value", "hcldec", s.itemKindAt(path),
 				fmt.Sprintf("hcldec value differs at %s: original %s, rewrite %s", path, orig.DecVal.GoString(), rw.DecVal.GoString())})
 		}
+	}
+	if (orig.ParseErr || orig.TwoErr) != (rw.ParseErr || rw.TwoErr) {
+		out = append(out, Mismatch{"has-error", "gohcl-two-pass", "-",
+			fmt.Sprintf("decoding in two passes (block labels, then the rest of each block body): original has error = %v, rewrite = %v", orig.ParseErr || orig.TwoErr, rw.ParseErr || rw.TwoErr)})
+	} else if !orig.ParseErr && !orig.TwoErr && !skipGohclValue && orig.TwoVal != rw.TwoVal {
+		out = append(out, Mismatch{"value", "gohcl-two-pass", "-", "two-pass gohcl value differs: original " + orig.TwoVal + ", rewrite " + rw.TwoVal})
 	}
 	if orig.hasErrGo() != rw.hasErrGo() {
 		out = append(out, errMismatch("gohcl", orig.hasErrGo(), append(orig.ParseDiags, orig.GoDiags...), append(rw.ParseDiags, rw.GoDiags...)))
